@@ -34,7 +34,26 @@ def _ret_status(body) -> str:
     raise ValueError("unrecognised return " + ast.unparse(v)[:120])
 
 
-def steps_of(fn: ast.FunctionDef) -> list:
+MISSING_TESTS = {
+    # the membership test alone raises TypeError for an unhashable element (a list / dict at a key position)
+    "request_key not in self.request_types": False,
+    # guarded: an unhashable element is treated as "not a request name of this manager"
+    "not _is_hashable(request_key) or request_key not in self.request_types": True,
+}
+
+
+def _is_hashable_helper_ok(tree: ast.Module) -> bool:
+    """`_is_hashable` must be the three-line helper: try hash(x) / except TypeError: return False / return True"""
+    fn = next((n for n in tree.body if isinstance(n, ast.FunctionDef) and n.name == "_is_hashable"), None)
+    if fn is None:
+        return False
+    body = [s for s in fn.body if not (isinstance(s, ast.Expr) and isinstance(s.value, ast.Constant))]
+    src = " ; ".join(" ".join(ast.unparse(s).split()) for s in body)
+    arg = fn.args.args[0].arg if fn.args.args else "?"
+    return src == f"try: hash({arg}) except TypeError: return False ; return True"
+
+
+def steps_of(fn: ast.FunctionDef, flags: dict = None) -> list:
     out = []
     for st in fn.body:
         if _is_log_or_msg(st):
@@ -53,8 +72,10 @@ def steps_of(fn: ast.FunctionDef) -> list:
             test = ast.unparse(st.test)
             if test == "not request":
                 out.append(f"ifEmpty_{_ret_status(st.body)}")
-            elif test == "request_key not in self.request_types":
+            elif test in MISSING_TESTS:
                 out.append(f"ifMissing_{_ret_status(st.body)}")
+                if flags is not None:
+                    flags["guards_unhashable"] = MISSING_TESTS[test]
             elif test == "not request_type.validator(request_options, context)":
                 out.append(f"ifValidatorFalse_{_ret_status(st.body)}")
             elif test == "isinstance(request_type.func, RequestManager)":
@@ -82,8 +103,11 @@ def steps_of(fn: ast.FunctionDef) -> list:
 def emit() -> str:
     tree = parse("simulator/core.py")
     rm = class_def(tree, "RequestManager")
-    call = steps_of(find_method(rm, "__call__"))
-    cv = steps_of(find_method(rm, "check_valid"))
+    fcall, fcv = {}, {}
+    call = steps_of(find_method(rm, "__call__"), fcall)
+    cv = steps_of(find_method(rm, "check_valid"), fcv)
+    helper = _is_hashable_helper_ok(tree)
+    b = (lambda x: "true" if x else "false")
     names = sorted(set(call + cv) | {"takeKey", "takeOptions", "lookup", "invoke", "ifEmpty_unreachable", "ifMissing_unreachable",
                                       "ifValidatorFalse_failure", "ifEmpty_false", "ifMissing_false", "ifValidatorFalse_false",
                                       "ifManager_recurse", "return_true"})
@@ -97,5 +121,9 @@ def callSteps : List Step := [{", ".join(call)}]
 open Step in
 /-- statements of `RequestManager.check_valid`, in order -/
 def checkValidSteps : List Step := [{", ".join(cv)}]
+/-- does the "missing key" test of `__call__` / `check_valid` treat an UNHASHABLE request element (a list or dict at a key
+position) as a missing key instead of letting `in` raise TypeError? (`_is_hashable` must be the try-hash helper) -/
+def callTotalOnUnhashable : Bool := {b(fcall.get("guards_unhashable") and helper)}
+def checkValidTotalOnUnhashable : Bool := {b(fcv.get("guards_unhashable") and helper)}
 end Primaite.Gen.RequestCore
 """
